@@ -232,7 +232,15 @@ class FuncCheck:
                 self.ensure(f'raises-allowed', cond)
             return
         if post is not None:
-            post(self, E, p.args, p.kwargs, p)
+            try:
+                post(self, E, p.args, p.kwargs, p)
+            except (AttributeError, TypeError, KeyError, IndexError, ValueError, AssertionError) as e:
+                # the returned value no longer has the SHAPE the contract talks about (e.g. an opaque value where a
+                # list was built before): a structural obligation, decided together with the bounded tier
+                label = 'post/result-has-the-shape-the-contract-describes'
+                self.structural.add(label)
+                self.results.setdefault(label, []).append(
+                    ('refuted', None, 0.0, k, f'{type(e).__name__}: {str(e)[:200]} while evaluating the postcondition', 'engine'))
 
     def ensure(self, label, goal, note=None, structure=False):
         if structure:
